@@ -1,7 +1,7 @@
 (* C15 - built models are complete, acyclic, uniquely named, frozen, and round-trip. *)
 From Coq Require Import List Arith Bool String.
 Import ListNotations.
-From LV Require Import Graph.Build Graph.BuildProofs Graph.BuildNames.
+From LV Require Import Graph.Build Graph.BuildProofs Graph.BuildNames Graph.TopoProofs.
 Open Scope list_scope.
 
 (* the worklist of GraphBuilder._all_nodes_and_vars returns exactly the nodes reachable from the added
@@ -365,3 +365,25 @@ Example C15_rebuild_hyps_example :
   (match build true true true naive_topo false ex_seeded [] [0] with (w', Ok m) => rebuild_hyps w' m | _ => false end) = true /\
   (match build true true true naive_topo false ex_auto [] [0] with (w', Ok m) => rebuild_hyps w' m | _ => false end) = true.
 Proof. exact rebuild_hyps_example. Qed.
+
+(* the executable topological-sort oracle used by the Examples and the correspondence runs decides
+   orderability: None exactly when no order of the (duplicate-free) node list is accepted by the
+   checker of Model.__init__, and every answer is accepted (Graph/TopoProofs.v: soundness by a scan
+   invariant over Kahn layers, completeness by the first pending node of a reference order) *)
+Theorem C15_topo_oracle_decides : forall w ns, NoDup ns ->
+  (naive_topo w ns = None <-> forall ord, is_topo w ns ord = false) /\
+  (forall order, naive_topo w ns = Some order -> is_topo w ns order = true).
+Proof. exact naive_topo_decides. Qed.
+Print Assumptions C15_topo_oracle_decides.
+
+(* hence Model.__init__ with this oracle never takes the BadOrder branch: "acyclic" is decided, not assumed *)
+Theorem C15_model_init_never_badorder : forall cf copy w ns vs, NoDup ns ->
+  snd (model_init cf naive_topo copy w ns vs) <> Err BadOrder.
+Proof. exact model_init_naive_never_badorder. Qed.
+Print Assumptions C15_model_init_never_badorder.
+
+(* a cycle among the nodes makes the oracle answer None (rejection Cycle), whatever else the graph holds *)
+Theorem C15_cycle_rejected_by_oracle : forall w ns a,
+  NoDup ns -> path w a a -> In a ns -> naive_topo w ns = None.
+Proof. exact cycle_rejected_by_naive_topo. Qed.
+Print Assumptions C15_cycle_rejected_by_oracle.
